@@ -52,6 +52,13 @@ class Lower:
         if q.endswith('*'): return ('ptr', q[:-1].strip())
         m = re.match(r'^(.*)\[(\d+)\]$', q)
         if m: return ('array', m.group(1).strip(), int(m.group(2)))
+        m = re.match(r'^\(lambda at .*:(\d+):(\d+)\)$', q)
+        if m:
+            cands = self.idx.lambda_by_pos.get((int(m.group(1)), int(m.group(2))), [])
+            if not cands:   # clang omits the line in a loc when it equals the previous one: match on column only
+                cands = [r for (l, c), rs in self.idx.lambda_by_pos.items() if c == int(m.group(2)) and l is None for r in rs]
+            if len(cands) >= 1: return ('rec', cands[0])
+            raise Unsupported('closure type %s not found' % q)
         if q.endswith(')'):
             return ('func', q)
         n = norm(q)
@@ -177,7 +184,7 @@ class Lower:
     def is_ref(self, ty):
         try: return self.tinfo(ty)[0] == 'ref'
         except Unsupported:
-            return qt(ty).endswith('&')
+            return (qt(ty) if isinstance(ty, dict) else ty).strip().endswith('&')
 
     def deref_t(self, ty):
         """type info with a top-level reference removed"""
@@ -330,11 +337,31 @@ class Lower:
         if kind in ('CXXConstructorDecl', 'CXXDestructorDecl'):
             rett = 'void'
         else:
-            rett = self.ctype_of(self.tinfo(ret_of(fn['type']['qualType'])))
+            rett = self.ctype_of(self.tinfo(self.ret_type_str(fn)))
         return '%s %s(%s)' % (rett, cname or self.fname(fn), ', '.join(params) or 'void')
 
+    def ret_type_str(self, fn):
+        """declared return type; for `decltype(expr)` / deduced `auto` the type of the first returned expression"""
+        r = ret_of(fn['type']['qualType'])
+        if r.startswith('decltype(') or r in ('auto', 'decltype(auto)'):
+            d = self.idx.defn.get(fn['id'], fn)
+            def find(n):
+                if not isinstance(n, dict): return None
+                if n.get('kind') == 'ReturnStmt' and n.get('inner'): return n['inner'][0]
+                if n.get('kind') == 'LambdaExpr': return None
+                for c in n.get('inner', []):
+                    x = find(c)
+                    if x is not None: return x
+                return None
+            e = find(self.idx.body(d) or {})
+            if e is None: return 'void'
+            t = qt(e['type'])
+            if e.get('valueCategory') == 'lvalue' and r != 'auto': t += ' &'
+            return t
+        return r
+
     def pname(self, p):
-        return p.get('name') or ('_p' + p['id'][-5:])
+        return p.get('_vp_name') or p.get('name') or ('_p' + p['id'][-5:])
 
     def rec_of_method(self, fn):
         pid = fn.get('parentDeclContextId')
@@ -509,6 +536,11 @@ class Lower:
             if len(found) != 1:
                 raise Unsupported('root %s (%s) matched %d definitions' % (alias, spec, len(found)))
             aliases.append((alias, self.need_fn(found[0]['id'])))
+            # pointee types of the first parameters, for harnesses that must declare such objects
+            sigp = self.signature(found[0]).split('(', 1)[1].rsplit(')', 1)[0].split(', ')
+            for k, prm in enumerate(sigp[:3]):
+                m = re.match(r'^(struct \w+) \* \w+$', prm)
+                if m: aliases.append(('%s_T%d' % (alias, k), m.group(1)))
         while self.worklist:
             kind, obj = self.worklist.pop()
             fl = FnLower(self)
